@@ -178,7 +178,10 @@ func init() {
 						if mask == 5 {
 							// the todo markers arrive in a second file on top of complete definitions
 							over := &Cfg{Params: []Param{{"pt", "%todo()%"}}, Services: []Service{{Name: "st", Todo: P(true)}}}
-							bc.Files = []File{{"base.yaml", c15cfg(0).YAML()}, {"todo.yaml", over.YAML()}}
+							base := c15cfg(0)
+							base.Svc("st").Todo = P(false) // an explicit "todo: false" in the earlier file must lose against the later file
+							base.Svc("su").Todo = P(false)
+							bc.Files = []File{{"base.yaml", base.YAML()}, {"todo.yaml", over.YAML()}}
 						}
 						for _, s := range part {
 							ops := append(append([]ProbeOp{}, s...), op("counters", ""))
